@@ -267,20 +267,8 @@ pub fn run_legs(tier: &str, seed: u64, kf: &Kf) -> Result<Partial, String> {
     // ---------------------------------------------------------------- Rust x Python
     {
         let (mut descs, _) = crate::c13::draw(seed, tier, &Profile { array_modifier: false, ..Profile::python() }, "C07/python", if thorough { 64 } else { 10 });
-        // the hand-written corpus (files without struct inheritance, which the python profile excludes), LE and BE
-        for (name, d, _) in rustharness::corpus_descs() {
-            let Ok(d) = d else { continue };
-            let inherits = d.decls.iter().any(|x| matches!(x, pdlv_core::model::Decl::Record { packet: false, parent: Some(_), .. }));
-            if inherits {
-                continue;
-            }
-            for big in [false, true] {
-                let mut dd = d.clone();
-                dd.big = big;
-                let text = pdlv_core::print::plain(&dd);
-                descs.push(RemoteDesc { idx: descs.len(), desc: dd, text, strata: vec![format!("corpus:{name}")] });
-            }
-        }
+        // the hand-written corpus files listed for the Rust x Python pair, LE and BE
+        rustharness::append_corpus(&mut descs, "python-pair");
         let dir = work_dir().join(format!("c07p-py-{tier}-{seed}"));
         let _ = std::fs::remove_dir_all(&dir);
         let _ = std::fs::create_dir_all(&dir);
